@@ -220,6 +220,20 @@ class Interp:
                         raise Unsupported(f"class {name}: body statement {type(st).__name__}")
                 Interp._SYNTH[key] = type(name, (Synth,), attrs)
                 return Interp._SYNTH[key]
+            if any(lit_name(b_) in ("NamedTuple", "typing.NamedTuple") for b_ in c.bases):
+                import collections as _coll
+                names_, defaults_ = [], []
+                for st in c.body:
+                    if isinstance(st, ast.AnnAssign) and isinstance(st.target, ast.Name):
+                        names_.append(st.target.id)
+                        if st.value is not None:
+                            defaults_.append(self.expr(st.value, Env(None)))
+                        elif defaults_:
+                            raise Unsupported(f"NamedTuple {name}: field without default after one with")
+                    elif isinstance(st, ast.FunctionDef):
+                        raise Unsupported(f"NamedTuple {name} has methods")
+                Interp._SYNTH[key] = _coll.namedtuple(name, names_, defaults=defaults_ or None)
+                return Interp._SYNTH[key]
             is_dc = any((isinstance(d_, ast.Name) and d_.id == "dataclass") or (isinstance(d_, ast.Attribute) and d_.attr == "dataclass") or (isinstance(d_, ast.Call) and lit_name(d_.func) in ("dataclass", "dataclasses.dataclass")) for d_ in c.decorator_list)
             if is_dc and bases == (object,):
                 # a plain record: fields in declaration order, constant defaults / list-dict-set factories
@@ -707,6 +721,8 @@ class Interp:
                 if hasattr(base, n.attr):
                     return getattr(base, n.attr)
                 raise Raised("AttributeError", n.attr, n)
+            if isinstance(base, tuple) and hasattr(type(base), "_fields") and (n.attr in type(base)._fields or n.attr == "_fields"):
+                return getattr(base, n.attr)          # a NamedTuple record of the analysed code
             if base is ast and isinstance(getattr(ast, n.attr, None), type):
                 return getattr(ast, n.attr)
             if isinstance(base, ast.AST) and (n.attr in base._fields or n.attr in getattr(base, "_attributes", ())):
@@ -877,6 +893,11 @@ class Interp:
                 return getattr(base, m)(*args)
             if isinstance(base, tuple) and m in ("index", "count"):
                 return getattr(base, m)(*args)
+            if isinstance(base, tuple) and hasattr(type(base), "_fields") and m in ("_asdict", "_replace"):
+                try:
+                    return getattr(base, m)(*args, **kwargs)
+                except (ValueError, TypeError) as e:
+                    raise Raised(type(e).__name__, "", n)
             import re as _re
             if isinstance(base, lit.Regex) and m in ("sub", "match", "fullmatch", "search", "findall", "finditer", "split", "subn"):
                 flags = 0
@@ -963,6 +984,14 @@ class Interp:
                     raise Raised("StopIteration", "", n)
                 except TypeError:
                     raise Raised("TypeError", "", n)
+            if name in ("map", "filter") and name not in env and len(args) >= 2 and not kwargs:
+                fn_v, its = args[0], [list(x) for x in args[1:]]
+                if name == "map":
+                    return iter([self.call_value(fn_v, list(xs), {}, n) for xs in zip(*its)])
+                return iter([x for x in its[0] if (self._truth(x) if fn_v is None else self._truth(self.call_value(fn_v, [x], {}, n)))])
+            if name in ("sorted", "min", "max") and name not in env and "key" in kwargs and kwargs["key"] is not None and not (callable(kwargs["key"]) and self._pure(kwargs["key"])):
+                kf = kwargs["key"]
+                kwargs = dict(kwargs, key=lambda x_, _kf=kf: self.call_value(_kf, [x_], {}, n))
             if name in _PURE_BUILTINS and name not in env:
                 try:
                     r = _PURE_BUILTINS[name](*args, **kwargs)
@@ -994,18 +1023,25 @@ class Interp:
                     raise Raised("TypeError", "", n)
             raise Unsupported(f"call to {name}")
         if not isinstance(f, (ast.Name, ast.Attribute)):
-            target = self._deref(self.expr(f, env))
-            if isinstance(target, Closure):
-                return self._call(target.fn, args, kwargs, target.env)
-            if callable(target) and getattr(target, "_dl_lambda", False):
-                return target(*args)
-            if callable(target) and self._pure(target):
-                return self._stdlib(target, args, kwargs, n)
-            if isinstance(target, type) and target in _TYPES.values():
-                try:
-                    return target(*args, **kwargs)
-                except (ValueError, TypeError, OverflowError) as e:
-                    raise Raised(type(e).__name__, "", n)
+            return self.call_value(self.expr(f, env), args, kwargs, n)
+        raise Unsupported("call form")
+
+    def call_value(self, target, args, kwargs, n=None):
+        """call a value the analysed code holds (a closure, a module function kept in a table, a pure library function, a type)"""
+        target = self._deref(target)
+        if isinstance(target, Closure):
+            return self._call(target.fn, list(args), dict(kwargs or {}), target.env)
+        if isinstance(target, (ast.FunctionDef,)):
+            return self._call(target, list(args), dict(kwargs or {}))
+        if callable(target) and getattr(target, "_dl_lambda", False):
+            return target(*args)
+        if isinstance(target, type) and (target in _TYPES.values() or issubclass(target, (Synth, tuple))):
+            try:
+                return target(*args, **(kwargs or {}))
+            except (ValueError, TypeError, OverflowError) as e:
+                raise Raised(type(e).__name__, "", n)
+        if callable(target) and self._pure(target):
+            return self._stdlib(target, list(args), dict(kwargs or {}), n)
         raise Unsupported("call form")
 
 
